@@ -3,6 +3,7 @@
 -/
 import UVerifProofs.Lemmas.CfloatVal
 import UVerifProofs.Lemmas.CfloatMul
+import UVerifProofs.Lemmas.CfloatEq
 open UVerif UVerif.Cfloat
 
 /-- IEEE equality on denoted values: NaN unequal to everything, −0 = +0 -/
@@ -22,7 +23,8 @@ def C06_cfloat_specLt (x y : Val) : Bool :=
   | .fin _ _, .inf t => !t
   | .fin s m, .fin t k => decide ((if s then -m else m) < (if t then -k else k))
 
-/-- full statement: `==` is value equality (false of the pinned code, D3) -/
+/-- full statement: `==` is IEEE value equality (NaN unequal to everything, −0 = +0, every encoding that denotes
+    zero equal to every other) — proved below as `C06_cfloat_eq` since the repair d3ba933 of operator== -/
 def C06_cfloat_eq_full : Prop :=
   ∀ (c : Cfg) (a b : Nat), c.valid = true → a < 2 ^ c.nbits → b < 2 ^ c.nbits →
     eq c a b = C06_cfloat_specEq (cfVal c a) (cfVal c b)
@@ -32,48 +34,79 @@ def C06_cfloat_lt_full : Prop :=
   ∀ (c : Cfg) (a b : Nat), c.valid = true → a < 2 ^ c.nbits → b < 2 ^ c.nbits →
     lt c a b = C06_cfloat_specLt (cfVal c a) (cfVal c b)
 
-/-- D3: +0 == −0 is false in every configuration; witness half-like cfloat<5,2> with subnormals -/
-theorem C06_cfloat_eq_counterexample :
-    let c : Cfg := { nbits := 5, es := 2, sub := true }
-    eq c 0x00 0x10 = false ∧ C06_cfloat_specEq (cfVal c 0x00) (cfVal c 0x10) = true := by
-  decide +kernel
-
-theorem C06_cfloat_eq_full_false : ¬ C06_cfloat_eq_full := by
-  intro h
-  have := h { nbits := 5, es := 2, sub := true } 0x00 0x10 (by decide) (by decide) (by decide)
-  revert this
-  decide +kernel
-
-/-- D3 for every configuration: the two zero encodings are never `==` although both denote zero -/
-theorem C06_cfloat_eq_signed_zero (c : Cfg) (hv : c.valid = true) :
-    eq c 0 (signBit c true) = false ∧ (cfVal c 0).isZero = true ∧ (cfVal c (signBit c true)).isZero = true := by
-  have sf := signBit_facts c hv true
-  have s0 := signBit_facts c hv false
-  have e0 : signBit c false = 0 := by unfold signBit; simp
-  rw [e0] at s0
-  have z1 : isZero c (signBit c true) = true := isZero_of_isZeroEnc c hv _ sf.2.1
-  have z0 : isZero c 0 = true := isZero_of_isZeroEnc c hv _ s0.2.1
-  refine ⟨?_, by rw [cfVal_isZero c hv, z0], by rw [cfVal_isZero c hv, z1]⟩
+/-- **`==` is value equality** for every valid configuration (any nbits, es, block type, flags) and every pair of
+    canonical encodings: NaN (also the supernormal encodings that read as NaN without supernormals) unequal to
+    everything incl. itself; +0 == −0 and, without subnormals, every exponent-0 encoding equals every other; two
+    infinities equal iff same sign; finite non-zero values equal iff the encodings are identical (the value map is
+    injective there). `!=` is the negation in the code and in the model's mask. -/
+theorem C06_cfloat_eq : C06_cfloat_eq_full := by
+  intro c a b hv ha hb
   unfold eq
-  have hne : (0 == signBit c true) = false := by
-    have : 0 < signBit c true := by unfold signBit; simp
-    rw [beq_eq_false_iff_ne]; omega
-  rw [hne]; simp
+  rcases cfVal_view c hv a with ⟨ea, na⟩ | ⟨ea, na, ia, za⟩ | ⟨ma, ea, na, ia, za⟩
+  · rw [ea, na]; simp [C06_cfloat_specEq]
+  · rcases cfVal_view c hv b with ⟨eb, nb⟩ | ⟨eb, nb, ib, zb⟩ | ⟨mb, eb, nb, ib, zb⟩
+    · rw [ea, eb, nb]; simp [C06_cfloat_specEq]
+    · rw [ea, eb, na, nb, za]
+      simp only [Bool.or_self, Bool.false_eq_true, if_false, Bool.false_and, C06_cfloat_specEq]
+      -- two infinities: equal encodings iff equal signs
+      have hia := (isInf_iff c hv a).mp ia
+      have hib := (isInf_iff c hv b).mp ib
+      by_cases hs : c.signOf a = c.signOf b
+      · have : a = b := enc_eq_of_fields c hv a b ha hb hs (by rw [hia.1, hib.1]) (by rw [hia.2, hib.2])
+        simp [this]
+      · have : a ≠ b := fun h => hs (by rw [h])
+        simp [this, hs]
+    · rw [ea, eb, na, nb, za]
+      simp only [Bool.or_self, Bool.false_eq_true, if_false, Bool.false_and, C06_cfloat_specEq]
+      have : a ≠ b := by
+        intro h; rw [h] at ia; rw [ia] at ib; cases ib
+      simp [this]
+  · rcases cfVal_view c hv b with ⟨eb, nb⟩ | ⟨eb, nb, ib, zb⟩ | ⟨mb, eb, nb, ib, zb⟩
+    · rw [ea, eb, nb]; simp [C06_cfloat_specEq]
+    · rw [ea, eb, na, nb, zb]
+      simp only [Bool.or_self, Bool.false_eq_true, if_false, Bool.and_false, C06_cfloat_specEq]
+      have : a ≠ b := by
+        intro h; rw [h] at ia; rw [ia] at ib; cases ib
+      simp [this]
+    · rw [ea, eb, na, nb, za, zb]
+      simp only [Bool.or_self, Bool.false_eq_true, if_false, C06_cfloat_specEq]
+      have hma := cfVal_fin_fieldMag c hv a ma _ ea
+      have hmb := cfVal_fin_fieldMag c hv b mb _ eb
+      by_cases h0a : ma = 0
+      · by_cases h0b : mb = 0
+        · simp [h0a, h0b]
+        · have hne : a ≠ b := by
+            intro h; rw [h] at hma; rw [← hmb] at hma; exact h0b (hma ▸ h0a)
+          simp [h0a, h0b, hne, Ne.symm h0b]
+      · by_cases heq : a = b
+        · subst heq
+          have : mb = ma := by rw [hmb, hma]
+          simp [h0a, this]
+        · have hmne : ¬ (ma = mb ∧ (c.signOf a = c.signOf b ∨ ma = 0)) := by
+            rintro ⟨hm, hs | hz⟩
+            · rw [hma, hmb] at hm
+              have hnz : fieldMag c (c.expOf a) (c.fracOf a) ≠ 0 := by rw [← hma]; exact h0a
+              obtain ⟨he, hf⟩ := fieldMag_inj c _ _ _ _ (fracOf_lt c a) (fracOf_lt c b) hm hnz
+              exact heq (enc_eq_of_fields c hv a b ha hb hs he hf)
+            · exact h0a hz
+          have lhs : (a == b) = false := by simpa using heq
+          have rhs : (ma == mb && (c.signOf a == c.signOf b || ma == 0)) = false := by
+            rw [Bool.eq_false_iff]; intro hc
+            simp only [Bool.and_eq_true, Bool.or_eq_true, beq_iff_eq] at hc
+            exact hmne hc
+          simp only [h0a, decide_false, Bool.false_and, Bool.false_eq_true, if_false]
+          rw [lhs, rhs]
 
-/-- partial (soundness direction, all configurations): when `==` answers true the operands denote the same
-    non-NaN value. The converse fails exactly on pairs of different zero encodings (D3). -/
-theorem C06_cfloat_eq_partial (c : Cfg) (hv : c.valid = true) (a b : Nat) (h : eq c a b = true) :
-    cfVal c a = cfVal c b ∧ (cfVal c a).isNan = false := by
-  unfold eq at h
-  by_cases hn : (isNan c a || isNan c b) = true
-  · rw [if_pos hn] at h; cases h
-  · rw [if_neg hn] at h
-    have hab : a = b := by simpa using h
-    subst hab
-    refine ⟨rfl, ?_⟩
-    rw [cfVal_isNan c hv]
-    simp only [Bool.or_self, Bool.not_eq_true] at hn
-    exact hn
+/-- non-vacuity / regression of the repaired cases: +0 == −0, and two exponent-0 aliases of zero in a configuration
+    without subnormals, now compare equal; a NaN still differs from itself -/
+example : let c : Cfg := { nbits := 5, es := 2, sub := true }
+    eq c 0x00 0x10 = true ∧ eq { c with sub := false } 0x01 0x12 = true ∧ eq c 0x0f 0x0f = false := by
+  decide +kernel
+
+/-- soundness direction kept as a corollary: when `==` answers true the operands denote equal non-NaN values -/
+theorem C06_cfloat_eq_partial (c : Cfg) (hv : c.valid = true) (a b : Nat) (ha : a < 2 ^ c.nbits) (hb : b < 2 ^ c.nbits)
+    (h : eq c a b = true) : C06_cfloat_specEq (cfVal c a) (cfVal c b) = true := by
+  rw [← C06_cfloat_eq c a b hv ha hb]; exact h
 
 /-- NaN operands are unordered: all of == < <= > >= are false (so != is true), every configuration -/
 theorem C06_cfloat_nan_unordered (c : Cfg) (a b : Nat) (h : isNan c a = true ∨ isNan c b = true) :
